@@ -2,8 +2,8 @@ package checks
 
 import (
 	"fmt"
-	"strings"
 	"io"
+	"strings"
 
 	"google.golang.org/protobuf/encoding/protowire"
 	"google.golang.org/protobuf/verif/core"
